@@ -28,6 +28,8 @@ type C14Case struct {
 	Route string `json:"route,omitempty"`
 	// Limit: the server's MaxMessageBytes (0: none); a declared Size up to the limit is legal there
 	Limit int64 `json:"limit,omitempty"`
+	// To: the recipient address to use with an ORCPT value ("" = the plain ASCII one)
+	To string `json:"to,omitempty"`
 }
 
 // goodClient authenticates with the backend's one-step mechanism.
@@ -117,6 +119,10 @@ func evalC14(c C14Case) (*h.Finding, string) {
 		ro = &smtp.RcptOptions{OriginalRecipientType: smtp.DSNAddressTypeRFC822, OriginalRecipient: c.Value}
 	case "orcpt-utf8":
 		ro = &smtp.RcptOptions{OriginalRecipientType: smtp.DSNAddressTypeUTF8, OriginalRecipient: c.Value}
+		if c.To != "" {
+			to = c.To
+			desc += fmt.Sprintf(" to=%q", to)
+		}
 	case "mailopts":
 		mo = &smtp.MailOptions{Size: c.Mail.Size, RequireTLS: c.Mail.RequireTLS, UTF8: c.Mail.UTF8, Return: smtp.DSNReturn(c.Mail.Return), EnvelopeID: c.Mail.EnvelopeID, Auth: c.Mail.Auth}
 		desc = fmt.Sprintf("MailOptions=%+v auth=%v tls=%t serverUTF8=%t", *c.Mail, strp(c.Mail.Auth), c.TLS, c.UTF8)
@@ -440,8 +446,20 @@ func C14(tier string) int {
 			}
 		}
 	}
-	for _, a := range []string{"simple@d.example", "user+tag@sub.d.example", "a.b.c@d.example", "x@[192.0.2.1]", "pelé@exämple.example", "日本@例え.example", "!#$%&'*+-/=?^_`{|}~@d.example"} {
+	for _, a := range []string{"simple@d.example", "user+tag@sub.d.example", "a.b.c@d.example", "x@[192.0.2.1]", "pelé@exämple.example", "日本@例え.example", "!#$%&'*+-/=?^_`{|}~@d.example",
+		"user@d.example.", "UPPER.lower@D.Example", "a@b", "x@[IPv6:2001:db8::1]", "1234567890@0.example", "a-b_c@d-e.example"} {
 		cases = append(cases, C14Case{Field: "address", Value: a, UTF8: true})
+	}
+	// the decoded AUTH identity goes through the same mailbox parser as the paths
+	for _, a := range []string{"user@d.example.", "UPPER.lower@D.Example"} {
+		v := a
+		cases = append(cases, C14Case{Field: "mailopts", UTF8: true, Mail: &MailO{Auth: &v}})
+	}
+	// a non-ASCII recipient together with a non-ASCII utf-8 ORCPT, on servers with and without SMTPUTF8
+	for _, v := range []string{"orig+é@o.example", "пользователь@пример.example", "a b@o.example"} {
+		for _, u8 := range []bool{true, false} {
+			cases = append(cases, C14Case{Field: "orcpt-utf8", Value: v, UTF8: u8, To: "pelé@b.example"}, C14Case{Field: "orcpt-utf8", Value: v, UTF8: u8, To: "ok@exämple.example"})
+		}
 	}
 	h.ParallelFor(len(cases), func(i int) {
 		if i%64 == 0 && run.Expired() {
